@@ -493,6 +493,17 @@ func EncryptFragment(f *Fragment, key, iv []byte, ipd *InitProtectData) error {
 		if err != nil {
 			return fmt.Errorf("get protect ranges: %w", err)
 		}
+		if len(subsamplePatterns) > 0 {
+			// The per-sample auxiliary information size must fit the 8-bit sample_info_size of saiz
+			ivSize := 0
+			if ipd.Scheme == "cenc" {
+				ivSize = len(iv)
+			}
+			if auxSize := ivSize + 2 + 6*len(subsamplePatterns); auxSize > 255 {
+				return fmt.Errorf("sample needs %d subsample entries: auxiliary info size %d does not fit in saiz",
+					len(subsamplePatterns), auxSize)
+			}
+		}
 		switch ipd.Scheme {
 		case "cenc":
 			err = CryptSampleCenc(sample, key, iv, subsamplePatterns)
